@@ -279,9 +279,10 @@ def judge(ctx, env, args, res, nodes):
         if k in ("only", "no", "vms") or obj_of_key(k) is not None:
             continue
         want_pd[k] = v.replace(",", " ")
+    nets_writers = [k for k, v in kvs if k == "nets" or obj_of_key(k) == "nets"]
     for k, v in want_pd.items():
-        if k == "nets" and has_restr:
-            continue
+        if k == "nets" and nets_writers[-1] != "nets":
+            continue        # a later only_nets=/no_nets= (even an empty one) rewrites nets: last writer wins
         if out["param_dict"].get(k) != v:
             ctx.violate("override-lost", f"{k}={v!r} given but param_dict has {out['param_dict'].get(k)!r}", case)
         for n, ps in nodes:
@@ -333,6 +334,7 @@ class Gen:
                        "client_noop", "stateless", "noop", "install", "automated", "connect", "customize"]
         self.vmvars = {vm: sorted({v for n in ns for v in n.split(".")}) for vm, ns in av["vmobjs"].items()}
         self.netvars = sorted({v for n, _ in av["nets"] for v in n.split(".")})
+        self.target = ["normal", "nongui", "quicktest", "tutorial1"]
 
     def ident(self, pool, unknown=0.06):
         r = self.rng
@@ -354,15 +356,26 @@ class Gen:
         n = 1 if self.rng.random() > comma else self.rng.randint(2, 3)
         return ",".join(self.word(pool, adj) for _ in range(n))
 
-    def test_filter(self, primary):
+    def test_filter(self, primary, negative=False):
+        """mostly satisfiable: `only` values are drawn from the variants of a target test chosen per argument list,
+        `no` values from variants the target does not have"""
         r = self.rng
+        tgt = self.target
         if primary:
             x = r.random()
-            if x < 0.6:
-                return r.choice(["normal", "minimal", "leaves", "normal", "minimal", "all", "nonleaves"])
+            if x < 0.55:
+                return tgt[0] if r.random() < 0.7 else r.choice(MAIN)
             if x < 0.8:
-                return r.choice(MAIN) + ".." + self.word(self.common, self.adj, 2)
-            return r.choice(["normal.gui", "normal.nongui", "leaves,normal", "minimal,normal..gui"])
+                return (tgt[0] if r.random() < 0.7 else r.choice(MAIN)) + ".." + self.word(tgt[1:] or self.common, self.adj, 2)
+            return r.choice(["normal.gui", "normal.nongui", "leaves,normal", "minimal,normal..gui", "all,leaves"])
+        if r.random() < 0.7:
+            if negative:
+                pool = [v for v in self.common if v not in tgt] or self.common
+                adj = [p for p in self.adj if p[0] not in tgt]
+            else:
+                pool = tgt[1:] or self.common
+                adj = [(tgt[i], tgt[i + 1]) for i in range(len(tgt) - 1)]
+            return self.filt(pool, adj)
         pool = self.common if r.random() < 0.8 else self.variants
         return self.filt(pool, self.adj)
 
@@ -373,7 +386,7 @@ class Gen:
         if kind == "only":
             return "only=" + self.test_filter(r.random() < 0.45)
         if kind == "no":
-            return "no=" + self.test_filter(r.random() < 0.1)
+            return "no=" + self.test_filter(r.random() < 0.1, negative=True)
         if kind == "vmr":
             vm = r.choice(av["vms"])
             val = "" if r.random() < 0.12 else self.filt(self.vmvars[vm] if r.random() < 0.3 else
@@ -400,8 +413,12 @@ class Gen:
 
     def arglist(self, maxlen=6):
         r = self.rng
+        self.target = r.choice([n.split(".") for n in self.av["tests"] if r.random() < 0.5 or n.startswith("normal")])
         n = r.choice([0, 1, 1, 2, 2, 2, 3, 3, 3, 4, 4, 5, maxlen])
         args = [self.arg() for _ in range(n)]
+        prim = any(t in self.av["restr"] for a in args if a.startswith(("only=", "no=")) for t in re.findall(r"[^,.=]+", a)[1:])
+        if n and not prim and self.target[0] != (self.av["default"] or "all") and r.random() < 0.85:
+            args[r.randrange(n)] = "only=" + self.target[0]      # keep most lists satisfiable
         if r.random() < 0.15 and args:        # multiplicity: repeat an argument or its key
             a = r.choice(args)
             args.insert(r.randrange(len(args) + 1), a if r.random() < 0.5 else self.arg([self.kind_of(a)]))
@@ -439,7 +456,7 @@ def run_cases(ctx, env, arglists, oracle=True, big_budget=12):
             cfg = res[1]
             fast = flat_names_fast(env, cfg)
             key = (cfg["tests_str"], tuple(cfg["param_dict"].items()))
-            if len(fast) <= big_budget or key in env["flat"] or ctx.rng.random() < 0.03:
+            if len(fast) <= big_budget or key in env["flat"] or ctx.rng.random() < 0.1:
                 nodes = flat_nodes(env, cfg)
                 ctx.count("impl.parse_flat_nodes.real")
                 if [n for n, _ in nodes] != fast:
